@@ -622,7 +622,7 @@ pub fn exec_and_fold(t: &PipelineTrace, scratch: &Scratch, rec: &mut RunRecord, 
             rec.probe("pipeline: final product accepted end to end");
         }
     }
-    for e in &o.events {
+    for e in o.events.iter().filter(|l| !l.starts_with("saw ")) {
         d.str(e);
     }
     for w in &o.work_after {
